@@ -150,7 +150,7 @@ def _cpd_matches(cpd, spec, v, parents, table):
             return f"state names of {u}: {cpd.state_names[u]} != {spec['states'][u]}"
     for a in O.all_assignments(spec, [v] + list(parents)):
         want = table[spec["states"][v].index(a[v])][O.col_index(spec, parents, a)]
-        got = cpd.get_value(**{str(k) if False else k: s for k, s in a.items()})
+        got = cpd.get_value(**a)
         if not O.close(got, want, 1e-12):
             return f"value at {a}: {got} != {want}"
     return None
@@ -158,8 +158,7 @@ def _cpd_matches(cpd, spec, v, parents, table):
 
 # ----------------------------------------------------------------------------- group: do surgery
 def gen_surgery(tier, seed):
-    sizes = (1, 2, 3, 4) if tier == "quick" else (1, 2, 3, 4)
-    yield from _bn_cases(tier, seed, "c13-surgery", sizes, 1 if tier == "quick" else 3)
+    yield from _bn_cases(tier, seed, "c13-surgery", (1, 2, 3, 4), 1 if tier == "quick" else 3)
 
 
 def _edges_of(g):
@@ -547,6 +546,8 @@ def _bucketed(tier, seed, nbuckets):
 
 def gen_minimal(tier, seed):
     yield from _bucketed(tier, seed, 24)
+    # 5-node witness (latent alpha): {n4, delta} is a valid observed adjustment set for (x0, beta)
+    yield {"nodes": NAMES[5], "dags": [[["alpha", "delta"], ["alpha", "x0"], ["delta", "n4"], ["beta", "n4"], ["n4", "x0"]]]}
 
 
 def gen_adj_multi(tier, seed):
@@ -584,7 +585,11 @@ def check_minimal(case):
                     return {"key": "get_minimal_adjustment_set:model-mutated", "what": f"{where}: model edges changed"}
                 if mz is None:
                     all_valid = [Z for Z in _subsets(cand) if adj_oracle(nodes, edges, X, Y, Z)]
-                    if all_valid:
+                    if all_valid and lat:
+                        # genuine defect of DAG.minimal_dseparator with latents (gives up after replacing latent parents by their parents)
+                        deferred = deferred or {"key": "get_minimal_adjustment_set:latent:none-but-exists",
+                                                "what": f"{where}: returned None ('no adjustment set is possible') but the observed sets {all_valid} are valid"}
+                    elif all_valid:
                         return {"key": "get_minimal_adjustment_set:none-but-exists", "what": f"{where}: None but {all_valid} are valid"}
                     continue
                 mz = set(mz)
